@@ -25,6 +25,8 @@ def model_logic(op, a, b):
 
 def model_shift(op, a, k):
     n = len(a)
+    if k >= n:
+        return '0' * n
     v = int(a, 2)
     if op == '<<':
         return fmt((v << k) & ((1 << n) - 1), n)
@@ -159,7 +161,7 @@ def run_laws(case):
 def shift_case(draw, tier):
     a = draw(bits_st(max_len=300 if tier == 'quick' else 2100, long=True))
     n = len(a)
-    k = draw(st.sampled_from([-3, -1, 0, 1, 2, 7, 8, 9, 63, 64, 65, max(n - 1, 0), n, n + 1, n + 70]) | st.integers(-3, n + 70))
+    k = draw(st.sampled_from([-3, -1, 0, 1, 2, 7, 8, 9, 63, 64, 65, max(n - 1, 0), n, n + 1, n + 70, 2 ** 31, 2 ** 63 - 1, 2 ** 63, 2 ** 64, 2 ** 100, -2 ** 63 - 1]) | st.integers(-3, n + 70))
     return {'a': a, 'k': k, 'op': draw(st.sampled_from(['<<', '>>'])), 'cls': draw(cls_st), 'inplace': draw(st.booleans()),
             'route': [draw(st.sampled_from(MEM_ROUTES)), draw(st.integers(0, 40))]}
 
